@@ -263,6 +263,12 @@ pub fn event(e: &Event) -> Value {
             json!({"ev": "goto_fill_order", "cells": cells.iter().map(|(s, n)| json!([s, n])).collect::<Vec<_>>()})
         }
         Event::FreshNames(names) => json!({"ev": "names", "chosen": names}),
+        Event::Closure { kind, item: it, items } => match *kind {
+            "start" => json!({"ev": "cstart", "kernel": items.iter().map(item).collect::<Vec<_>>()}),
+            "skip" => json!({"ev": "cskip", "item": it.as_ref().map(item)}),
+            "expand" => json!({"ev": "cexpand", "item": it.as_ref().map(item), "pushed": items.iter().map(item).collect::<Vec<_>>()}),
+            _ => json!({"ev": "cend", "items": items.iter().map(item).collect::<Vec<_>>()}),
+        },
         #[allow(unreachable_patterns)]
         _ => json!({"ev": "unknown"}),
     }
